@@ -36,15 +36,15 @@ type PhaseRec struct {
 }
 
 type monitorState struct {
-	active     bool
-	loopBudget int
+	active      bool
+	loopBudget  int
 	depthBudget int
-	loops      map[string]int
-	depth      int
-	maxDepth   int
-	phases     []string
-	phaseFn    func(name string, doc any)
-	hit        bool
+	loops       map[string]int
+	depth       int
+	maxDepth    int
+	phases      []string
+	phaseFn     func(name string, doc any)
+	hit         bool
 }
 
 var mon monitorState
